@@ -140,8 +140,7 @@ def is_comparison(e):
     return (e[0] == "call" and e[1] in COMPARE_CALLS) or (e[0] == "bin" and e[1] in COMPARE_OPS)
 
 
-def r2_overlap(ctx, P):
-    R = "C02.R2"
+def r2_overlap(ctx, P, R="C02.R2"):
     ctx.rule(R, "copy_nonoverlapping into a destination derived from the source block, or allocated after the "
                 "source's space was released, is control dependent on a range comparison")
     rb = realloc_bodies(P)
@@ -432,4 +431,6 @@ def run(ctx, progs):
         from . import c16, c10 as _c10
         c16.r1_partitions(ctx, P, R="C02.R6")
         _c10.r1d_aligner_direction(ctx, P, PosDiscipline(P), R="C02.R7")
+        from . import c13 as _c13
+        _c13.r1_settings_gates(ctx, P, PosDiscipline(P), R="C02.R8")
     ctx.config = None
